@@ -73,6 +73,54 @@ def plain_depth(n: Int): Int
   1 + plain_depth(n - 1) + x - x
 end
 
+class KDeep
+  init(@depth: Int); end
+  def to_string: String
+    "deep(" + plain_depth(@depth).to_string + ")"
+  end
+end
+
+class KTag
+  init(@name: String); end
+  def to_string: String
+    "<" + @name + ">"
+  end
+end
+
+def render(depth: Int): String
+  d := KDeep(depth)
+  a := KTag("a")
+  b := KTag("b")
+  "${d} ${a} ${b} tail"
+end
+
+class KKey
+  init(@id: Int, @depth: Int); end
+  pure def sink(n: Int, a: Int, b: Int, c: Int): Int
+    return a + b + c if n <= 0
+    1 + sink(n - 1, a, b, c)
+  end
+  pure def hash: UInt64
+    sink(@depth, 1, 2, 3)
+    @id.hash
+  end
+  def ==(other: any): bool
+    if other <<: KKey
+      return @id == other.id
+    end
+    false
+  end
+  def id: Int then @id
+end
+
+def build_map(depth: Int): String
+  k1 := KKey(1, depth)
+  k2 := KKey(2, 0)
+  k3 := KKey(3, 0)
+  m := { k1 => "one", k2 => "two", k3 => "three" }
+  "len=" + m.length.to_string + " " + (m[k1] ?? "MISSING") + " " + (m[k2] ?? "MISSING") + " " + (m[k3] ?? "MISSING")
+end
+
 def mutate_after(d: Int, k: Int): Int
   var c = k
   inc := || -> do
@@ -183,7 +231,19 @@ func genKnobProgram(r *Rand) (string, []string) {
 	var frags []string
 	n := r.Range(2, 5)
 	for i := 0; i < n; i++ {
-		switch k := r.Intn(15); k {
+		switch k := r.Intn(17); k {
+		case 15:
+			// operand conversions that run user bytecode in the middle of a multi-operand instruction
+			// (string interpolation -> to_string): the reallocation happens inside the conversion,
+			// the remaining operands are read afterwards
+			d := Pick(r, []int{2, 30, 100, 280, 450})
+			fmt.Fprintf(&b, "println \"interp=${render(%d)}\"\n", d)
+			frags = append(frags, fmt.Sprintf("interp%d", d))
+		case 16:
+			// a hash map literal whose first key has a user-defined hash that recurses deeply
+			d := Pick(r, []int{2, 30, 100, 280, 450})
+			fmt.Fprintf(&b, "println \"maplit=${build_map(%d)}\"\n", d)
+			frags = append(frags, fmt.Sprintf("maplit%d", d))
 		case 13:
 			// native methods that call back into bytecode: the reallocation happens inside the
 			// callback, the native's result has to land in the reallocated stack
